@@ -563,16 +563,16 @@ def stream_jobs(ctx, default):
             out.append(("F", {"op": "pipeline", "src": "sami", "doc": head + body + "</BODY></SAMI>", "via": via},
                         {"src": "sami", "via": via, "fixed": True}))
     # wave 7: the real _find_lang / handle_starttag, _css_parse and merge_concurrent_captions called directly
-    for _ in range(ctx.n(150, 3000)):
+    for _ in range(ctx.n(150, 1000)):
         styles, real, ps = gen_find_lang(rng)
         out.append(("FL", {"op": "find_lang", "styles": real, "ps": ps}, {"styles": styles, "ps": ps}))
-    for _ in range(ctx.n(40, 800)):
+    for _ in range(ctx.n(40, 200)):
         blocks, css = gen_css(rng)
         out.append(("CSS", {"op": "css_parse", "css": css}, {"blocks": blocks}))
-    for _ in range(ctx.n(150, 3000)):
+    for _ in range(ctx.n(150, 1000)):
         mcs = gen_merge_set(rng)
         out.append(("M", {"op": "merge", "cs": mcs}, {"cs": mcs}))
-    for _ in range(ctx.n(30, 600)):          # the caption sets of stream B (their equal-span runs) through the same function
+    for _ in range(ctx.n(30, 200)):          # the caption sets of stream B (their equal-span runs) through the same function
         cs, styles, shape, flags = gen_capset(rng, styled=False)
         mcs = [[l, [[c[0], c[1], [c[2]]] for c in cues]] for l, cues in cs]
         out.append(("M", {"op": "merge", "cs": mcs}, {"cs": mcs, "plain": cs}))
